@@ -125,8 +125,9 @@ fn normalized_escaped_char_q(input: Span) -> PResult<String> {
 
 fn selector_plain_part(input: Span) -> PResult<String> {
     fold_many1(
+        // Any non-ascii character is an identifier character in css.
         verify(take_char, |ch| {
-            ch.is_alphanumeric() || *ch == '-' || *ch == '_'
+            ch.is_alphanumeric() || *ch == '-' || *ch == '_' || !ch.is_ascii()
         }),
         String::new,
         |mut acc, chr: char| {
